@@ -11,6 +11,7 @@ mod packet;
 mod proj;
 mod rdata;
 mod reparse;
+mod store;
 mod txt;
 mod util;
 mod values;
@@ -31,6 +32,7 @@ fn main() {
         "edns" => edns::run(&a),
         "reparse" => reparse::run(&a),
         "txt" => txt::run(&a),
+        "store" => store::run(&a),
         "values" => values::run(&a),
         "compress" => compress::run(&a),
         "sinks" => compress::run_sinks(&a),
